@@ -337,6 +337,10 @@ func checkList(ms []*rawMsg) {
 		fail("sei.ExtractSEIData", "roundtrip-differs", w, "extract(write msgs) = "+xl)
 		return
 	}
+	// cross-cutting oracles (hygiene.go): guard bytes, capacity, caller re-using its buffers, malformed input in between,
+	// messages unchanged by writing
+	hygStream(b)
+	hygWrite(w, nil, ms)
 	// the codec wrappers (generic message types only; the typed decoders are checked on their own)
 	gen := true
 	for _, m := range ms {
